@@ -30,7 +30,7 @@ def tlaps_lemmas(tier, seed, out):
 
 def C07(tier, seed):
     req = ["C07.contains", "C07.range_contains", "C07.range_bounds", "C07.range_contains_consistent",
-           "C07.intersects", "C07.includes", "C07.is_included_in"]
+           "C07.intersects", "C07.includes", "C07.is_included_in", "C07.nan_probe"]
     return {
         "stages": [iv_chain(tier, req)],
         "pre": [tlaps_lemmas],
@@ -45,7 +45,7 @@ def C07(tier, seed):
 
 def C15(tier, seed):
     return {
-        "stages": [iv_chain(tier, ["C15.partial_cmp", "C15.operators", "C15.eq_consistent"])],
+        "stages": [iv_chain(tier, ["C15.partial_cmp", "C15.operators", "C15.eq_consistent", "C15.infinite_explicit_bound"])],
         "pre": [tlaps_lemmas],
         "exhaustive": True,
         "rule": "all ordered pairs of intervals over the chain x 9 element types through partial_cmp and the five "
@@ -167,7 +167,8 @@ def C09(tier, seed):
     fold = mean_stage("c09fold", "C09", ["C09." + c for c in ("bound_lo", "bound_hi", "sample_mean", "sample_variance", "sample_std_dev",
                                                                  "sample_count", "type.f32", "type.f64", "style.lfold1", "style.rfold1",
                                                                  "style.rfold1_assign", "style.lfold7", "style.rfold7", "style.tree",
-                                                                 "t_branch", "normal_branch")], 1, shards=8)
+                                                                 "t_branch", "normal_branch", "magnitude.tiny", "magnitude.large",
+                                                                 "beyond_f32_count.extend", "beyond_f32_count.tree", "beyond_f32_count.lfold7")], 1, shards=8)
     stages.append(fold)
     stages[0].mc = mc
     stages[0].required |= {"C09.act.add", "C09.act.add_assign"}
@@ -299,7 +300,7 @@ def C11(tier, seed):
                    st("prop", ["C11.no_panic", "C11.is_significant", "C11.is_significant_k_gt_n", "C11.documented_panic", "C11.stats_new", "C11.prop"]),
                    st("quant", ["C11.no_panic", "C11.quant_ranks", "C11.quant_data", "C11.documented_panic_quantile", "C11.unsorted_input_to_sorted_unchecked"])]
                   # valid input of very large size must not panic either (overflow checks are on)
-                  + bigpop_stages(['C02.domain', 'C02.in01', 'C02.no_panic', 'C02.shape'], ['C03.domain', 'C03.in_range', 'C03.kind', 'C03.no_panic']),
+                  + [edge_stage(tier, ["C02.domain", "C02.no_panic"])] + bigpop_stages(['C02.domain', 'C02.in01', 'C02.no_panic', 'C02.shape'], ['C03.domain', 'C03.in_range', 'C03.kind', 'C03.no_panic']),
         "exhaustive": True,
         "rule": "decision table of module Totality: five mean/comparison producers x call styles x samples of length 0..4 (6 thorough) with one "
                 "offending observation (NaN, +-inf, -0, 0, negative, 1e200, 1e-200) at every position, constant and non exactly summable "
@@ -317,7 +318,8 @@ def prop_stage(grp, nmax, req, levels="sel", shards=8, big=6):
                  env={"GRP": grp, "PROP_N": nmax, "PROP_LEVELS": levels, "PROP_BIG": big}, required=req, shards=shards)
 
 
-C02_REQ = ["C02.ratio_rounding_tie", "C02.population_beyond_32_bits", "C02.domain", "C02.no_panic", "C02.shape", "C02.in01", "C02.level_echo", "C02.root_lo", "C02.root_hi",
+C02_REQ = ["C02.ratio_rounding_tie", "C02.population_beyond_32_bits", "C02.extreme_level.two", "C02.extreme_level.upper", "C02.extreme_level.lower",
+           "C02.population_beyond_53_bits.ok", "C02.population_beyond_53_bits.TooFewFailures", "C02.population_beyond_53_bits.TooFewSuccesses", "C02.domain", "C02.no_panic", "C02.shape", "C02.in01", "C02.level_echo", "C02.root_lo", "C02.root_hi",
            "C02.around_estimate", "C02.front_end", "C02.negative_z", "C02.zero_z", "C02.method.wilson", "C02.method.wald",
            "C02.kind.two", "C02.kind.upper", "C02.kind.lower"] + \
           ["C02.front_end." + f for f in ("ci", "ci_wilson_ratio", "ci_true", "ci_if", "stats_new", "stats_from_iter", "stats_extend", "stats_extend_if", "stats_add", "stats_mixed")] + \
@@ -327,11 +329,23 @@ NUM_TRUST = TLC_TRUST + ["the mpmath-generated quantile tables (spec/tables; axi
                          "the BigInteger accelerators of the exact kernel (checked against the TLA+ definitions by MC_BigNum)"]
 
 
+def edge_stage(tier, adopt):
+    """the edge of the documented domain of the proportion intervals for every population up to 2000 (20 000)"""
+    st = Stage("edge", ("Gen_Proportion", "Gen_Proportion.cfg"), ("Trace_Proportion", "Trace_Proportion.cfg"),
+               env={"GRP": "edge", "PROP_N": 0, "PROP_LEVELS": "sel", "PROP_BIG": 0, "PROP_EDGE": 2000 if tier == "quick" else 20000}, shards=8,
+               required=["C02.domain.ok.wilson", "C02.domain.TooFewSuccesses.wilson", "C02.domain.TooFewFailures.wilson",
+                         "C02.domain.ok.wald", "C02.domain.TooFewSuccesses.wald", "C02.domain.TooFewFailures.wald", "C02.front_end.ci"])
+    st.adopt = set(adopt)
+    return st
+
+
 def bigpop_stages(adopt_prop, adopt_quant):
     """populations beyond 2^32 through the count-based proportion entry points and the index-only quantile entry points"""
     bp = Stage("bigpop", ("Gen_Proportion", "Gen_Proportion.cfg"), ("Trace_Proportion", "Trace_Proportion.cfg"),
                env={"GRP": "big", "PROP_N": 0, "PROP_LEVELS": "sel", "PROP_BIG": 0}, shards=2,
-               required=["C02.population_beyond_32_bits", "C02.root_lo", "C02.root_hi", "C02.no_panic"])
+               required=["C02.population_beyond_32_bits", "C02.root_lo", "C02.root_hi", "C02.no_panic", "C02.extreme_level.two", "C02.extreme_level.upper",
+                         "C02.extreme_level.lower", "C02.population_beyond_53_bits.ok", "C02.population_beyond_53_bits.TooFewFailures",
+                         "C02.population_beyond_53_bits.TooFewSuccesses"])
     bp.adopt = set(adopt_prop)
     bq = Stage("bigpopq", ("Gen_Quantile", "Gen_Quantile.cfg"), ("Trace_Quantile", "Trace_Quantile.cfg"),
                env={"PART": "big"}, shards=1, required=["C03.population_beyond_32_bits", "C03.no_panic", "C03.in_range"])
@@ -344,7 +358,7 @@ def C02(tier, seed):
     st.mc = list(TABLES_MC)
     own = own_stage("W", "Trace_Proportion", ["C02.root_lo", "C02.root_hi", "C02.domain"])
     return {
-        "stages": [st, own, history_stage()],
+        "stages": [st, own, history_stage(), edge_stage(tier, [])],
         "exhaustive": True,
         "rule": "every ci_wilson / ci_z_normal call made by the repository's OWN test-suite (about 18 000 calls of the Monte-Carlo accuracy test, "
                 "recorded by the guarded hook) through the same root-enclosure judge; "
@@ -365,7 +379,9 @@ def C17(tier, seed):
     return {
         "stages": [row,
                    prop_stage("mult", n, ["C17.shrinks_with_n"]),
-                   prop_stage("levels", n, ["C17.wider_with_level"]), history_stage()] + bigpop_stages(['C02.domain', 'C02.front_end', 'C02.in01', 'C02.no_panic', 'C02.root_hi', 'C02.root_lo', 'C02.shape'], [])[:1],
+                   prop_stage("levels", n, ["C17.wider_with_level"]), history_stage(),
+                   # the admissible domain is mirror-symmetric (k successes <-> k failures) for every population
+                   edge_stage(tier, ["C02.domain", "C02.no_panic", "C02.front_end", "C02.root_lo", "C02.root_hi"])] + bigpop_stages(['C02.domain', 'C02.front_end', 'C02.in01', 'C02.no_panic', 'C02.root_hi', 'C02.root_lo', 'C02.shape'], [])[:1],
         "exhaustive": True,
         "rule": "relations over the recorded table (n, k) -> interval: for every n <= 40 (130) and confidence, consecutive k (monotone), "
                 "k vs n-k within two-sided rows and between upper and lower rows (mirror, 2^-50), midpoint between k/n and 1/2; "
@@ -394,7 +410,8 @@ def C03(tier, seed):
     own = own_stage("Q", "Trace_Quantile", ["C03.ranks", "C03.domain"])
     own.shards = 1
     return {
-        "stages": [ranks, perm, shuf, own, history_stage()],
+        # the Wilson bounds behind the ranks at confidence levels far outside the grid (the ranks themselves are judged against them)
+        "stages": [ranks, perm, shuf, own, history_stage()] + bigpop_stages(['C02.domain', 'C02.in01', 'C02.no_panic', 'C02.root_hi', 'C02.root_lo', 'C02.shape', 'C02.level_echo'], [])[:1],
         "exhaustive": True,
         "rule": "ranks: every n in 0..70 (400) x 35 dyadic quantiles (incl. 0, 1, outside [0,1]) + products at half-integers and their float "
                 "neighbours + NaN x 5 levels x 3 kinds through ci_indices, Stats::ci, Stats::index; data: EVERY permutation of 4 multiset shapes "
@@ -483,7 +500,7 @@ def own_stage(want, trace, req):
 
 def C01(tier, seed):
     st = mean_stage("c01", "C01", arith_req("C01") + ["C01.call_styles_agree", "C01.constant_sample", "C01.style.ci", "C01.style.extend",
-                                                    "C01.style.append", "C01.style.meanci"], 40 if tier == "quick" else 400)
+                                                    "C01.style.append", "C01.style.meanci", "C01.zero_observation", "C01.squares_overflow", "C01.count_beyond_32_bits"], 40 if tier == "quick" else 400)
     st.mc = list(TABLES_MC)
     own = own_stage("M", "Trace_Hook", ["C01.own_tests_kind", "C01.own_tests_bound"])
     return {
@@ -506,7 +523,7 @@ def c06_designed():
 
 
 def C06(tier, seed):
-    st = mean_stage("c06", "C06", arith_req("C06") + ["C04.unpaired_small_dof_large_population", "C06.even_dof_closed_form", "C06.extreme_level.upper", "C06.off_grid_level.two", "C06.off_grid_level.lower"], 0)
+    st = mean_stage("c06", "C06", arith_req("C06") + ["C04.unpaired_small_dof_large_population", "C06.even_dof_closed_form", "C06.count_beyond_32_bits", "C06.extreme_level.upper", "C06.off_grid_level.two", "C06.off_grid_level.lower"], 0)
     st.adopt = {"C04.unpaired_bound", "C04.shape", "C04.domain", "C04.exchange_mirrors"}    # the critical value of the unpaired comparison at a small effective dof
     # even-dof rows of the t table certified from the algebraic closed form of the distribution function
     st.mc = list(TABLES_MC) + [("MC_TCert", "MC_TCert.cfg", {"TCERT_MAX": 80 if tier == "quick" else 300}, 4)]
